@@ -802,3 +802,34 @@ spec("C19", plan=plan_c19,
           "the policy's end-of-line character occurs outside an end-of-line sequence (policy crlf with a lone LF) are not judged, because "
           "tracking and matching define 'line' differently there.  Non-trivial: positions on line >= 2 or with non-default counters.",
      assumptions=COMMON_ASSUME)
+
+# ---------------------------------------------------------------------------- C03
+
+
+def plan_c03(tier, seed, workdir, case):
+    sweep = Target("c03_sweep", "targets/c03_bounds.cpp", mode="asan")
+    if case is not None:
+        return [Run(sweep)]
+    q = tier == "quick"
+    fuzz = Target("c03_fuzz", "targets/c03_bounds.cpp", mode="fuzz", defs=("VF_FUZZ=1",))
+    runs = [Run(sweep, nshards=16, timeout=3000)]
+    runs.append(Run(fuzz, nshards=16, timeout=3000,
+                    fuzz=dict(runs=120000 if q else 3000000, max_len=160, max_total_time=300 if q else 1800, rss=2500)))
+    # the window hook (guarded instrumentation) is also active in the rule zoo and the slot shapes
+    runs += [Run(t, args=["--prop", "C03"]) for t in zoo_targets()]
+    return runs
+
+
+spec("C03", plan=plan_c03,
+     rule="(a) boundary sweep under ASan+UBSan: 79 top-level rules (json, uri incl. IPv4/IPv6, http request/status/chunked body, all integer "
+          "rules, raw_string, utf8/16/32, uint8..64 incl. masked, abnf, istring/string/keyword/identifier/shebang, until, rep_min_max, "
+          "rep_one_min_max, rep_string, bytes, require, predicates, eol/eolf under five policies, rematch/minus, rules under limit_bytes / "
+          "check_bytes at an offset, the lua53 / proto3 / double example grammars) x valid seed inputs x EVERY truncation, every byte x 17 "
+          "replacement bytes (plus truncation right after it), extensions - each through four input classes: eager and lazy memory input "
+          "on an exact-size heap block without terminator, buffer_input fed in 3-byte reads, memory input whose logical end lies inside a "
+          "larger buffer with poisoned surroundings (run with six different fillers beyond the end); (b) coverage-guided libFuzzer "
+          "campaign over (rule selector, input class, payload) seeded with all of the above; (c) the C02 rule zoo with the window hook.  "
+          "Oracle: no sanitizer report, the guarded window hook never sees peek(offset >= available) or bump(count > available), cursor <= "
+          "end, only parse_error / std::overflow_error(buffer) leave parse(), bytes beyond the logical end never change result or "
+          "consumption.  Non-trivial: a run in which a rule inspected or consumed the last available byte; distinct = (rule, input, class).",
+     assumptions=COMMON_ASSUME + ["reads through in.current() (string<>, uintN, utf16/32 peeks) are visible to ASan only; reads through peek_char()/bump() additionally to the window hook"])
